@@ -42,6 +42,8 @@ def caction? (j : Json) : Option CAction := do
     pure (.deliver (tyOf (← nat "ty")) (← int "remote") (← int "purpose") (← int "dir") (← int "phys")
       (← (jField? j "fields").bind jInts?))
   else if a == "poll" then pure .poll
+  else if a == "reserve" then pure (.base .reserve)       -- the link layer takes an unused physical qubit
+  else if a == "stop" then pure (.base (.stop (← nat "app")))
   else none
 
 def coutcomeJ : Option COutcome → Json
